@@ -42,6 +42,11 @@ class RT:
             raise ValueError("loop bound must have exactly one element")
         return int(self.a.reshape(()).item())
 
+    def __getitem__(self, idx):
+        # basic indexing only (ints and positive-step slices with in-range bounds are all the generator emits):
+        # NumPy's reading, which is what C11 holds the converter and eager mode to
+        return RT(self.a[idx])
+
     # ---- operators
     def __add__(self, o):
         return OP.Add(self, o)
